@@ -213,6 +213,23 @@ def hmac_pbkdf(run):
             upd(msg[:len(msg) // 2])
             upd(msg[len(msg) // 2:])
             got2 = fin()
+            # documented: finalize() may be called repeatedly at any point for the HMAC of the data so far; several
+            # independent (update, finalize) pairs from one compiled function do not influence each other
+            if std is not None:
+                maker = compile_hmac(d, key, multipart=True)
+                (u1, f1), (u2, f2) = maker(), maker()
+                so_far = b""
+                for piece in (msg[:3], b"", msg[3:], b"tail" * 20):
+                    u1(piece)
+                    so_far += piece
+                    u2(piece[::-1])
+                    for rep in range(2):
+                        r1 = f1()
+                        run.count("hmac_incremental_finalize")
+                        if r1 != std_hmac.new(key, so_far, std).digest():
+                            run.violation(f"C11|hmac|multipart|finalize-{'repeated' if rep else 'after-update'}|mismatch",
+                                          f"HMAC-{d} multipart: finalize() #{rep + 1} after {len(so_far)} bytes differs from the HMAC of the data so far", dict(digest=d, key_len=kl, key=key, data=so_far))
+                            break
             rel = "below" if kl < bs else "at" if kl == bs else "above"
             run.case(("hmac", d, rel, kl), dict(primitive="compile_hmac", digest=d, key_len=kl, block_size=bs, out=got.hex()[:24]))
             run.count("hmac")
@@ -339,6 +356,7 @@ def body(run):
     run.require("md4_copy", 100)
     run.require("scrypt", 40)
     run.require("hmac", 60)
+    run.require("hmac_incremental_finalize", 200)
     run.require("pbkdf2", 100)
     run.require("saslprep_codepoints", 20000)
     run.extra["exhaustive_subspaces"] = ["DES: all 4096 12-bit salts, every single salt bit of the 24, rounds 1..30", "MD4: every message length 0..300",
